@@ -79,12 +79,14 @@ func (n *OneToOneNode) forward(proc *process.Process) {
 			if errWriter == nil {
 				errWriter = n.errPort.Open(proc)
 			}
+			errPck = derive(errPck, inPck)
 			n.tracer.Link(inPck, errPck)
 			n.tracer.Write(errWriter, errPck)
 		} else if outPck != nil {
 			if outWriter == nil {
 				outWriter = n.outPort.Open(proc)
 			}
+			outPck = derive(outPck, inPck)
 			n.tracer.Link(inPck, outPck)
 			n.tracer.Write(outWriter, outPck)
 		} else {
